@@ -114,6 +114,23 @@ def gen_reference(rng, wide=False):
             row[g] = [5, 6, 5, 6, 5, 6][i]
         clusters[0], clusters[1] = lowc, highc
         T['q1min'], T['qdiffmin'] = rng.choice([((1, 10), (1, 5)), ((1, 4), (1, 10)), ((1, 10), (1, 10))])
+    f32 = False
+    if rng.random() < 0.12:
+        # statistics stored in single precision (every number exactly representable) with a gene expressed at a high,
+        # nearly constant level in one cluster and absent elsewhere: sum^2 needs more than 24 bits
+        g = rng.randrange(ng)
+        hot = []
+        for i in range(3):
+            row = [rng.choice([0, 0, 0, 1, 1, 2]) for _ in range(ng)]
+            row[g] = 2500 + (1 if i >= 1 else 0)       # 2500, 2501, 2501: sum and sum of squares are exact in single precision
+            hot.append(row)
+        clusters[0] = hot
+        for k in range(1, ncl):
+            if len(clusters[k]) < 2:
+                clusters[k] = clusters[k] + [list(clusters[k][0])]
+            for row in clusters[k]:
+                row[g] = 0
+        f32 = True
     zero_floors = rng.random() < 0.15
     if zero_floors:
         # every minimum floor at 0 (legal: the strict thresholds stay above), a short gene list, approximate mode
@@ -122,7 +139,7 @@ def gen_reference(rng, wide=False):
     conf = {'T': T, 'exact': exact, 'n_valid': rng.choice([1, 2, 3, 5, 30]) if not zero_floors else rng.choice([5, 30]),
             'gene_list': sorted(rng.sample(range(ng), rng.randint(1, ng) if not zero_floors else rng.randint(1, 2)))
             if (rng.random() < 0.3 or zero_floors) else None,
-            'P': rng.randint(1, 3), 'max_gb': rng.choice([1, 1e-3, 1e-7]), 'pad_list': rng.random() < 0.5}
+            'P': rng.randint(1, 3), 'max_gb': rng.choice([1, 1e-3, 1e-7]), 'pad_list': rng.random() < 0.5, 'f32': f32}
     two_level = rng.random() < 0.5
     return {'clusters': clusters, 'ng': ng, 'conf': conf, 'two_level': two_level}
 
@@ -159,7 +176,7 @@ def write_stats_full(path, ref, names):
         f.create_dataset('taxonomy_tree', data=json.dumps(tree).encode())
         f.create_dataset('n_cells', data=n)
         for k in arr:
-            f.create_dataset(k, data=arr[k])
+            f.create_dataset(k, data=arr[k].astype(np.float32) if ref['conf'].get('f32') else arr[k])
         for k in cnt:
             f.create_dataset(k, data=cnt[k])
     return genes
